@@ -157,6 +157,7 @@ type scenario struct {
 	mutLayout       func(path string)
 	linkDirOverride string // "missing" / "empty"
 	noInter         bool
+	inter           []string // explicit --intermediate-certs files (nil: the default for the chain)
 	noNorm          bool
 }
 
@@ -279,6 +280,28 @@ func (w *world) scenarios(signed string) []scenario {
 	}
 	if cfg.hasInter() && !cfg.InterInLayout {
 		sc = append(sc, scenario{name: "tamper:intermediate-cert-not-passed", certain: "nz", noInter: true})
+		// the intermediates as bundle files: every certificate of a file counts, in any order,
+		// also behind a certificate that has nothing to do with the chain
+		kd := filepath.Join(w.root, "keys")
+		unrelated := lib.NewCA("unrelated", nil, lib.CertOpts{CN: "some other CA"})
+		cat := func(name string, parts ...[]byte) string {
+			p := filepath.Join(kd, name)
+			writeFile(p, bytes.Join(parts, nil))
+			return p
+		}
+		pol := w.interCA.PEM
+		if w.inter2CA == nil {
+			sc = append(sc, scenario{name: "alt:intermediate-behind-unrelated-cert-in-bundle", certain: "0",
+				inter: []string{cat("bundle-unrelated-first.pem", unrelated.PEM, pol)}})
+		} else {
+			iss := w.inter2CA.PEM
+			sc = append(sc,
+				scenario{name: "alt:two-intermediates-bundle-policy-first", certain: "0", inter: []string{cat("ca-chain-rev.pem", pol, iss)}},
+				scenario{name: "alt:two-intermediates-two-files", certain: "0", inter: []string{filepath.Join(kd, "inter2.pem"), filepath.Join(kd, "inter.pem")}},
+				scenario{name: "alt:two-intermediates-bundle-behind-unrelated-cert", certain: "0", inter: []string{cat("ca-chain-unrelated-first.pem", unrelated.PEM, iss, pol)}},
+				scenario{name: "tamper:only-policy-ca-passed", certain: "nz", inter: []string{filepath.Join(kd, "inter.pem")}},
+				scenario{name: "tamper:only-issuing-ca-passed", certain: "nz", inter: []string{filepath.Join(kd, "inter2.pem")}})
+		}
 	}
 	return sc
 }
@@ -348,6 +371,15 @@ func (w *world) verifyOne(i int, sc scenario, signed, final, links string) {
 	var inter []string
 	if w.interCA != nil && !cfg.InterInLayout && !sc.noInter {
 		inter = []string{filepath.Join(w.root, "keys", "inter.pem")}
+		if w.inter2CA != nil {
+			// one bundle file: issuing CA followed by policy CA
+			b := filepath.Join(w.root, "keys", "ca-chain.pem")
+			writeFile(b, append(append([]byte{}, w.inter2CA.PEM...), w.interCA.PEM...))
+			inter = []string{b}
+		}
+	}
+	if sc.inter != nil {
+		inter = sc.inter
 	}
 	norm := cfg.Norm && !sc.noNorm
 
